@@ -78,6 +78,7 @@ func C20(p *an.Prog, r *an.Report) {
 	r.Rule = "one obligation per (type, method) on the zero value, one per (type, method, prefix length) for wire structures; non-trivial = the method has a body with at least one branch or call"
 	r.Trusted = []string{"go/ssa; external calls return unknown (never reported) values"}
 	r.Exhaustive = true
+	defer c20Prealloc(p, r)
 
 	type tm struct {
 		T     *types.Named
@@ -382,4 +383,100 @@ func c20Shapes(p *an.Prog, r *an.Report) map[string][]c20Shape {
 	}
 	r.Analysed["distinct_partial_shapes"] = n
 	return out
+}
+
+// c20Prealloc (Z4): a slice of pointers that a parser returns together with an error must not
+// contain nil elements its own accessors would dereference. A slice grown with append only ever
+// holds the elements parsed so far; a slice preallocated with make([]*T, n) and filled by index
+// holds nil for every element after the failing one. The rule finds returns that sit inside the
+// loop filling a locally built pointer slice and requires that slice to be append-built.
+func c20Prealloc(p *an.Prog, r *an.Report) {
+	seen, bad := 0, []string{}
+	for _, fn := range p.RepoFns {
+		if !an.InLib(fn) || len(fn.Blocks) == 0 {
+			continue
+		}
+		for _, li := range naturalLoops(fn) {
+			for _, blk := range fn.Blocks {
+				ret, ok := blk.Instrs[len(blk.Instrs)-1].(*ssa.Return)
+				if !ok || li.body[blk] || !li.header.Dominates(blk) {
+					continue
+				}
+				// an early exit: reached from inside the loop body (not from the loop condition in the header)
+				early := false
+				work := []*ssa.BasicBlock{blk}
+				visitedB := map[*ssa.BasicBlock]bool{}
+				for len(work) > 0 && !early {
+					x := work[len(work)-1]
+					work = work[:len(work)-1]
+					if visitedB[x] {
+						continue
+					}
+					visitedB[x] = true
+					for _, pr := range x.Preds {
+						if li.body[pr] {
+							if pr != li.header {
+								early = true
+							}
+							continue
+						}
+						work = append(work, pr)
+					}
+				}
+				if !early {
+					continue
+				}
+				for _, res := range ret.Results {
+					sl, ok := res.Type().Underlying().(*types.Slice)
+					if !ok {
+						continue
+					}
+					switch sl.Elem().Underlying().(type) {
+					case *types.Pointer, *types.Interface:
+					default:
+						continue
+					}
+					// origins of the returned slice inside this function
+					var makes []*ssa.MakeSlice
+					appendBuilt := false
+					var walk func(v ssa.Value, d int)
+					visited := map[ssa.Value]bool{}
+					walk = func(v ssa.Value, d int) {
+						if d > 8 || visited[v] {
+							return
+						}
+						visited[v] = true
+						switch x := v.(type) {
+						case *ssa.MakeSlice:
+							makes = append(makes, x)
+						case *ssa.Phi:
+							for _, e := range x.Edges {
+								walk(e, d+1)
+							}
+						case *ssa.Call:
+							if isBuiltin(x, "append") {
+								appendBuilt = true
+								walk(x.Call.Args[0], d+1)
+							}
+						case *ssa.Slice:
+							walk(x.X, d+1)
+						}
+					}
+					walk(res, 0)
+					if len(makes) == 0 && !appendBuilt {
+						continue
+					}
+					seen++
+					for _, mk := range makes {
+						if c, isC := mk.Len.(*ssa.Const); isC && c.Value != nil && c.Int64() == 0 {
+							continue
+						}
+						bad = append(bad, fmt.Sprintf("%s returns at %s, from inside the loop that fills it, a pointer slice preallocated at %s: elements not yet parsed are nil and the value's accessors dereference them", an.FnKey(fn), p.Pos(ret.Pos()), p.Pos(mk.Pos())))
+					}
+				}
+			}
+		}
+	}
+	r.Analysed["returns of a locally built pointer slice from inside its fill loop"] = seen
+	r.Check(len(bad) == 0 && seen > 0, "C20.Z4", "parsers/partial-pointer-slices", "", fmt.Sprintf("pointer slices returned early from their fill loop (%d sites) are append-built, so they hold no nil elements", seen), bad...)
 }
